@@ -162,15 +162,22 @@ func Verif_C02_RecoverThenDurable() {
 	c0, c1 := litCommand(0), litCommand(1)
 	st.Write(db0, []byte(c0))
 	endOfFirst := len(rw.data)
-	st.Write(db0, []byte(c1))
-	// crash: only 1..len-1 bytes of the second command reached the disk
-	torn := 1 + vr.Choose("torn", len(c1)-1)
+	// the second write may switch to another database: its record is then preceded by a SELECT marker
+	db1 := pickDB("db1")
+	st.Write(db1, []byte(c1))
+	// crash: only 1..len-1 bytes of what the second write appended (marker and command) reached the disk
+	torn := 1 + vr.Choose("torn", len(rw.data)-endOfFirst-1)
 	image := &memRW{data: append([]byte{}, rw.data[:endOfFirst+torn]...)}
 	image.synced = len(image.data)
 	st2, _ := NewAppendStore(WithReadWriter(image), WithStrategy("always"))
 	_ = st2.Restore()
 	c2 := litCommand(2)
-	vr.Assert(st2.Write(db0, []byte(c2)) == nil, "C02.recover.write_acknowledged")
+	// the write after recovery goes to the database of the first or of the torn record
+	dbw := db0
+	if vr.Choose("write_in_torn_records_database", 2) == 1 {
+		dbw = db1
+	}
+	vr.Assert(st2.Write(dbw, []byte(c2)) == nil, "C02.recover.write_acknowledged")
 	// clean restart
 	var second []replayed
 	st3, _ := NewAppendStore(WithReadWriter(&memRW{data: image.data}), WithStrategy("always"),
@@ -181,7 +188,7 @@ func Verif_C02_RecoverThenDurable() {
 		if r.cmd == c0 && r.db == db0 {
 			found0 = true
 		}
-		if r.cmd == c2 && r.db == db0 {
+		if r.cmd == c2 && r.db == dbw {
 			found2 = true
 		}
 	}
